@@ -10,6 +10,7 @@ reader's view, and the raw layout (chunk sizes, contour dataset names, string wi
 import copy
 import json
 import pathlib
+import random
 
 import numpy as np
 
@@ -27,8 +28,14 @@ RULE = ("seeded write histories: CHUNK_SIZE_BYTES in {1, 1920, 5376, 19200, 2^20
         "> 100 bytes, empty lines, zero lines, str instead of list), tables (dict and recarray, "
         "second store of the same name), metadata; writer sessions in append/replace/reset mode "
         "closed and re-opened at random points (also mid-round), h5py.File handed in instead of a "
-        "path, rejected empty calls. After every session the file is read back through dclab and "
-        "raw h5py. distinct = distinct histories in which some n-d dataset received >= 2 calls "
+        "path, rejected empty calls; several store_metadata calls per file with complete and partial "
+        "sections, with / without / with pre-branded 'setup:software version' (the version chain "
+        "must keep every earlier entry and carry the dclab brand once). After every session the "
+        "file is read back through dclab and raw h5py, and additionally on a freshly opened dataset "
+        "through a seeded sequence of 2-7 access patterns per feature in random order (full, slices "
+        "with steps, positive/negative ints, boolean masks, np.asarray, np.asarray/np.array with an "
+        "explicit narrower or wider dtype, modified copies; contours and traces by int and slice), "
+        "each compared with the same operation on the written data. distinct = distinct histories in which some n-d dataset received >= 2 calls "
         "and ends beyond one chunk, or a log outgrew its width, or a contour group was written by "
         ">= 2 writer objects.")
 TRUSTED_BASE = [
@@ -46,7 +53,9 @@ ASSUMPTIONS = [
 ]
 NOT_PROVED = [
     "metadata values/types (C11) and HDF5 attributes CLASS/IMAGE_* are checked by the harness "
-    "only (correspondence-only)",
+    "only (correspondence-only); of the metadata only the software-version chain is modelled",
+    "the reader cache model (access_order_irrelevant) abstracts slicing/indexing into per-access "
+    "conversions; the concrete patterns are exercised by the harness",
     "row shapes and dtypes are outside the Lean model (tokens); stored dtypes uint32/uint64/uint8/"
     "float64/int16 are asserted by the harness",
     "datasets produced by rtdc_copy are not appendable (no maxshape): appending after "
@@ -190,6 +199,8 @@ def gen_history(rng, thorough):
     def open_(mode=None):
         m = mode or rng.choice(["append", "append", "append", "reset" if not ops else "append"])
         ops.append(["open", m, rng.random() < 0.15 and m != "reset"])
+        if ops[:-1] and m != "reset" and rng.random() < 0.3:
+            ops.append(["meta", rng.choice(META_EXTRA)])     # partial sections on a later writer
 
     def data_ops(toks_of, order):
         out = []
@@ -259,7 +270,7 @@ def gen_history(rng, thorough):
     nmax = min(3 * nd_chunk + 2, 90 if thorough else 50)
     n_now = 0
     open_("reset" if rng.random() < 0.6 else "append")
-    ops.append(["meta", "base"])
+    ops.append(["meta", rng.choice(["base", "base", "base-nover"])])
     lo = max(1, min(nd_chunk - 1, nmax))
     n_now += rounds(rng.choice([1, 2, rng.randint(1, nmax), rng.randint(lo, nmax),
                                 rng.randint(lo, nmax)]))
@@ -282,14 +293,14 @@ def gen_history(rng, thorough):
             ops.append(["close"])
         elif r < 0.6:
             open_("reset")
-            ops.append(["meta", "base"])
+            ops.append(["meta", rng.choice(["base", "base", "base-nover"])])
             n_now = rounds(rng.randint(1, nmax))
             ops.append(["close"])
         else:
             open_("append")
             n_now += rounds(rng.randint(1, max(1, nmax - n_now) if nmax > n_now else 3))
             ops.append(["close"])
-    return {"cb": cb, "ops": ops}
+    return {"cb": cb, "ops": ops, "aseed": rng.randrange(10 ** 6)}
 
 
 def exhaustive_histories(rng, n_more):
@@ -316,7 +327,7 @@ def exhaustive_histories(rng, n_more):
             if rng.random() < 0.3:
                 ops += [["close"], ["open", "append", rng.random() < 0.2]]
         ops.append(["close"])
-        out.append({"cb": 1, "ops": ops})
+        out.append({"cb": 1, "ops": ops, "aseed": rng.randrange(10 ** 6)})
     return out
 
 
@@ -327,7 +338,33 @@ META_EXTRA = [
     {"online_contour": {"bin area min": 25, "no absdiff": True}},
     {"user": {"verif key": 7, "other": "text"}},
     {"setup": {"medium": "CellCarrier", "channel width": 30.0}},
+    {"setup": {"flow rate": 0.04}},
+    {"setup": {"software version": "ShapeIn 2.0.5"}},
+    {"setup": {"software version": "ShapeIn 2.0.5 | dclab 0.50.1", "identifier": "ZMD-x"}},
+    {"setup": {"software version": "  Other Tool 7 |  | dclab 0.64.0"}},
+    {"experiment": {"run index": 3}, "imaging": {"pixel size": 0.5}},
 ]
+
+
+def base_meta(which):
+    m = copy.deepcopy(gen.BASE_META)
+    if which == "base-nover":
+        del m["setup"]["software version"]
+    return m
+
+
+def meta_of(op):
+    return base_meta(op[1]) if isinstance(op[1], str) else op[1]
+
+
+def split_version(v):
+    return [x.strip() for x in v.split("|") if x.strip()]
+
+
+def dclab_brand():
+    common.import_dclab()
+    from dclab._version import version
+    return f"dclab {version}"
 
 
 def normalize(ops):
@@ -362,6 +399,12 @@ class PySpec:
 
     def reset(self):
         self.feats, self.traces, self.contour, self.logs, self.tables, self.meta = {}, {}, None, {}, {}, {}
+        self.ver = []      # setup:software version as a chain
+
+    def brand(self):
+        b = dclab_brand()
+        if not self.ver or self.ver[-1] != b:
+            self.ver = self.ver + [b]
 
     def apply(self, op):
         k = op[0]
@@ -394,9 +437,15 @@ class PySpec:
         elif k == "table":
             self.tables.setdefault(op[1], (op[3], op[4]))
         elif k == "meta":
-            m = gen.BASE_META if op[1] == "base" else op[1]
+            m = meta_of(op)
             for sec, kv in m.items():
                 self.meta.setdefault(sec, {}).update(kv)
+            given = split_version(m.get("setup", {}).get("software version", "") or "")
+            if given:
+                self.ver = given
+            self.brand()
+        elif k == "close":
+            self.brand()
 
     def lengths(self):
         ls = [len(v) for v in self.feats.values()] + [len(v) for v in self.traces.values()]
@@ -430,9 +479,11 @@ def run_impl(case, wd, check_after_each_close=True):
     writer.CHUNK_SIZE_BYTES = case["cb"]
     outs, snaps = [], []
     hw, h5 = None, None
+    shadow = PySpec()
     try:
         for op in normalize(case["ops"]):
             k = op[0]
+            shadow.apply(op)
             try:
                 if k == "open":
                     if op[2]:
@@ -448,6 +499,7 @@ def run_impl(case, wd, check_after_each_close=True):
                             h5.close()
                         hw, h5 = None, None
                     snaps.append(snapshot(path))
+                    snaps[-1]["access"] = access_probe(path, shadow, case.get("aseed", 0))
                 elif k == "feat":
                     f = op[1]
                     real = "mask" if f == "mask8" else f
@@ -471,7 +523,7 @@ def run_impl(case, wd, check_after_each_close=True):
                 elif k == "table":
                     hw.store_table(op[1], _table_arg(op[2], op[3], op[4]))
                 elif k == "meta":
-                    hw.store_metadata(gen.BASE_META if op[1] == "base" else op[1])
+                    hw.store_metadata(meta_of(op))
                 outs.append("ok")
             except Exception as e:  # noqa
                 outs.append("err " + common.err_class(e) + f" {type(e).__name__}: {e}"[:160])
@@ -487,6 +539,106 @@ def run_impl(case, wd, check_after_each_close=True):
         except Exception:
             pass
     return {"outs": outs, "snaps": snaps}
+
+
+def _same(got, want):
+    got, want = np.asarray(got), np.asarray(want)
+    return got.dtype == want.dtype and got.shape == want.shape and got.tobytes() == want.tobytes()
+
+
+def access_probe(path, spec, aseed):
+    """read the re-opened dataset through a seeded sequence of access patterns per feature
+    (first access random); every result must equal the same operation on the written data"""
+    dclab = common.import_dclab()
+    bad = []
+    try:
+        with dclab.new_dataset(path) as ds:
+            innate = set(ds.features_innate)
+            names = sorted(f for f in spec.feats if spec.feats[f] and model_name(f) in innate)
+            random.Random(f"{aseed}-order").shuffle(names)
+            for f in names:
+                rng = random.Random(f"{aseed}-{f}")
+                name = model_name(f)
+                exp = np.array([payload(f, t) for t in spec.feats[f]])
+                n = len(exp)
+                scalar = exp.ndim == 1
+                pats = (["full", "slice", "int", "bool", "asarray", "typed", "typed", "copy"]
+                        if scalar else ["full", "slice", "int", "int"])
+                fobj = ds[name]
+                for k in range(rng.randint(2, 7)):
+                    pat = rng.choice(pats)
+                    desc = pat
+                    try:
+                        if pat == "full":
+                            got, want = fobj[:], exp
+                        elif pat == "slice":
+                            a, b = sorted([rng.randint(0, n), rng.randint(0, n)])
+                            st = rng.choice([1, 1, 2, 3])
+                            desc = f"[{a}:{b}:{st}]"
+                            got, want = fobj[a:b:st], exp[a:b:st]
+                        elif pat == "int":
+                            i = rng.randrange(-n, n) if scalar else rng.randrange(n)
+                            desc = f"[{i}]"
+                            got, want = fobj[i], exp[i]
+                        elif pat == "bool":
+                            m = np.array([rng.random() < 0.5 for _ in range(n)])
+                            desc = "[bool mask]"
+                            got, want = fobj[m], exp[m]
+                        elif pat == "asarray":
+                            got, want = np.asarray(fobj), exp
+                        elif pat == "typed":
+                            dt = rng.choice([np.float32, np.float16, np.float64] if exp.dtype.kind == "f"
+                                            else [np.float64, np.int64, np.uint8, np.float32])
+                            desc = f"np.asarray(ds[f], dtype={np.dtype(dt).name})"
+                            call = rng.choice([np.asarray, np.array])
+                            got, want = call(fobj, dtype=dt), np.asarray(exp, dtype=dt)
+                        else:
+                            desc = "np.array(ds[f], copy=True) + modification of the copy"
+                            got = np.array(fobj, copy=True)
+                            ok = _same(got, exp)
+                            got[...] = 0     # must not reach the dataset's cache
+                            if not ok:
+                                bad.append(f"{name}: access #{k} {desc} differs from the data written")
+                            continue
+                        if not _same(got, want):
+                            bad.append(f"{name}: access #{k} {desc} differs from the data written "
+                                       f"(dtype {np.asarray(got).dtype}, expected {np.asarray(want).dtype})")
+                    except Exception as e:  # noqa
+                        bad.append(f"{name}: access #{k} {desc} raised {type(e).__name__}: {e}"[:200])
+            ls = spec.lengths()
+            if spec.contour and len(set(ls)) == 1 and "contour" in innate:
+                rng = random.Random(f"{aseed}-contour")
+                exp = [payload("contour", t) for t in spec.contour]
+                n = len(exp)
+                for k in range(3):
+                    i = rng.randrange(-n, n)
+                    a, b = sorted([rng.randint(0, n), rng.randint(0, n)])
+                    try:
+                        if not _same(ds["contour"][i], exp[i]):
+                            bad.append(f"contour: access [{i}] differs from the data written")
+                        got = ds["contour"][a:b]
+                        if len(got) != b - a or not all(_same(g, w) for g, w in zip(got, exp[a:b])):
+                            bad.append(f"contour: access [{a}:{b}] differs from the data written")
+                    except Exception as e:  # noqa
+                        bad.append(f"contour: access raised {type(e).__name__}: {e}"[:200])
+            if "trace" in innate:
+                for tn, toks in spec.traces.items():
+                    rng = random.Random(f"{aseed}-{tn}")
+                    exp = np.array([payload("trace/" + tn, t) for t in toks])
+                    n = len(exp)
+                    if not n or tn not in ds["trace"]:
+                        continue
+                    i = rng.randrange(n)
+                    a, b = sorted([rng.randint(0, n), rng.randint(0, n)])
+                    try:
+                        if not _same(ds["trace"][tn][i], exp[i]) or \
+                                not _same(ds["trace"][tn][a:b], exp[a:b]):
+                            bad.append(f"trace {tn}: access [{i}] / [{a}:{b}] differs")
+                    except Exception as e:  # noqa
+                        bad.append(f"trace {tn}: access raised {type(e).__name__}: {e}"[:200])
+    except Exception as e:  # noqa
+        bad.append(f"dataset cannot be opened for the access probe: {type(e).__name__}: {e}"[:200])
+    return bad
 
 
 def snapshot(path):
@@ -626,6 +778,12 @@ def check_snapshot(spec, snap, out_err=None):
         exp = {c: [float(payload("table", row[i])) for row in cells] for i, c in enumerate(cols)}
         if dc["tables"].get(name) != exp:
             bad.append(("table", f"table {name}: {dc['tables'].get(name)} vs {exp}"))
+    for msg in snap.get("access", []):
+        bad.append(("access", msg))
+    got_ver = dc["meta"].get("setup", {}).get("software version")
+    if spec.ver and got_ver != " | ".join(spec.ver):
+        bad.append(("version", f"setup:software version = {got_ver!r}, expected the chain "
+                               f"{' | '.join(spec.ver)!r}"))
     for sec, kv in spec.meta.items():
         for key, val in kv.items():
             if (sec, key) in (("experiment", "event count"), ("setup", "software version")):
@@ -644,8 +802,9 @@ def check_snapshot(spec, snap, out_err=None):
 
 
 def model_lines(case):
-    lines = [f"cfg {case['cb']} fixed"]
-    tags = [None]
+    enc = lambda e: e.replace(" ", "_")    # noqa: E731
+    lines = ["brandname " + enc(dclab_brand()), f"cfg {case['cb']} fixed"]
+    tags = [None, None]
     for op in normalize(case["ops"]):
         k = op[0]
         if k == "open":
@@ -676,7 +835,9 @@ def model_lines(case):
                          + " ".join(",".join(str(t) for t in row) for row in op[4]))
             tags.append("op")
         elif k == "meta":
-            pass
+            given = split_version(meta_of(op).get("setup", {}).get("software version", "") or "")
+            lines.append("vmeta " + ("|".join(enc(e) for e in given) if given else "-"))
+            tags.append("op")
     return lines, tags
 
 
@@ -700,11 +861,10 @@ def kv(s):
 def mirror_check(case, res, answers):
     """compare with the Lean model; returns first complaint or None"""
     lines, tags = model_lines(case)
-    ops = [op for op in normalize(case["ops"]) if op[0] != "meta"]
-    outs = [o for op, o in zip(normalize(case["ops"]), res["outs"]) if op[0] != "meta"]
-    oi = 0
+    ops = normalize(case["ops"])
+    outs = res["outs"]
     si = 0
-    ai = 1
+    ai = 2
     feat_of = {}
     for op in ops:
         if op[0] == "feat":
@@ -762,6 +922,9 @@ def mirror_check(case, res, answers):
                 return f"contour names: file {cn}, model {raw_m['CN']}"
             if kv(raw_m["W"]) != {n: str(w) for n, w in raw["widths"].items()}:
                 return f"string widths: file {raw['widths']}, model {raw_m['W']}"
+            fver = dc["meta"].get("setup", {}).get("software version", "")
+            if raw_m["V"].replace("_", " ") != "|".join(split_version(fver)):
+                return f"software version chain: file {fver!r}, model {raw_m['V']!r}"
             ev = "-" if raw["evcount"] is None else str(raw["evcount"])
             if raw_m["N"] != "-" and raw_m["N"] != ev:
                 return f"event count: file {ev}, model {raw_m['N']}"
@@ -920,7 +1083,7 @@ def run(ctx):
                 small = shrink(c, wd, failure[0])
                 f2 = spec_fail(small, wd) or failure
                 ctx.violation("spec", f"{f2[0]}: {f2[1]}"[:300],
-                              {"cb": small["cb"], "ops": normalize(small["ops"])})
+                              {"cb": small["cb"], "ops": normalize(small["ops"]), "aseed": small.get("aseed", 0)})
             continue
         if model is not None:
             try:
@@ -938,7 +1101,7 @@ def run(ctx):
                 small = shrink(c, wd, f[0])
                 f2 = spec_fail(small, wd) or f
                 ctx.violation("spec", f"{f2[0]}: {f2[1]}"[:300],
-                              {"cb": small["cb"], "ops": normalize(small["ops"])})
+                              {"cb": small["cb"], "ops": normalize(small["ops"]), "aseed": small.get("aseed", 0)})
                 found = True
                 break
         if not found:
@@ -946,7 +1109,7 @@ def run(ctx):
             ctx.violation("mirror", f"RTDCWriter differs from its Lean model ({len(mirror_bad)} "
                                     f"histories), first: {d}"[:300],
                           {"correspondence": "Drive/C01.lean vs dclab.rtdc_dataset.writer.RTDCWriter",
-                           "case": {"cb": c["cb"], "ops": normalize(c["ops"])}})
+                           "case": {"cb": c["cb"], "ops": normalize(c["ops"]), "aseed": c.get("aseed", 0)}})
 
 
 def replay(ctx, data):
